@@ -311,32 +311,26 @@ func runBootstrapChain() string {
 }
 
 // closureOptionSets: under which peg options the closures of the program family are validated for a property that is not
-// itself about options. The quick tier takes the default and the fully optimised parser (the two ends), the thorough tier
-// every combination; C13 (memory safety) also covers parsers without AST. The register (C11) is only specified for the
-// ordered choice, i.e. without -switch.
+// itself about options: the default and the fully optimised parser (the two ends); C13 (memory safety) also a parser
+// without AST; C01's thorough tier every combination. The register (C11) is only specified for the ordered choice, i.e.
+// without -switch. (The thorough tier differs mainly in the program family: full schema family, c and java.)
 func closureOptionSets(id, tier string) [][]string {
 	ast := [][]string{{}, {"-inline"}, {"-switch"}, {"-inline", "-switch"}}
-	noast := [][]string{{"-noast"}, {"-noast", "-inline"}, {"-noast", "-switch"}, {"-noast", "-inline", "-switch"}}
+	ends := [][]string{{}, {"-inline", "-switch"}}
 	thorough := tier == "thorough"
 	switch id {
-	case "C01", "C03", "C06":
+	case "C01":
 		if thorough {
-			return ast
+			return ast // every combination (the other properties keep the two ends: the proofs are the same closures)
 		}
-		return [][]string{{}, {"-inline", "-switch"}}
+		return ends
+	case "C03", "C06":
+		return ends
 	case "C13":
-		if thorough {
-			return append(ast, noast...)
-		}
 		return [][]string{{}, {"-inline", "-switch"}, {"-noast", "-inline", "-switch"}}
-	case "C11":
-		if thorough {
-			return [][]string{{}, {"-inline"}}
-		}
-		return [][]string{{}}
 	case "C04", "C05":
 		if thorough {
-			return [][]string{{}, {"-inline", "-switch"}}
+			return ends
 		}
 		return [][]string{{}}
 	}
@@ -423,6 +417,12 @@ func runClosureProperty(r *Run, id string, optSets [][]string, corpusOnly bool) 
 		go func(j *job) {
 			defer wg.Done()
 			defer func() { <-sem }()
+			defer func() {
+				if e := recover(); e != nil {
+					j.sub.Obls = append(j.sub.Obls, &Obligation{Name: j.name + "#unit.generated", Kind: "unit", Unit: j.name, Goal: "false", PC: "true",
+						Detail: "the verification conditions of this program could not be generated: " + trunc(fmt.Sprint(e), 1500), Result: SolverResult{Verdict: VUnknown, Output: trunc(fmt.Sprint(e), 3000)}})
+				}
+			}()
 			gp, err := Generate(j.name, j.p.Grammar, j.opts)
 			if err != nil {
 				// a program that cannot be generated, or whose output does not type-check, is a failed obligation
@@ -637,6 +637,36 @@ func posString(u *Unit, p token.Pos) string {
 }
 
 // C14: a generated parser keeps all of its state in the instance
+// sharedKind: why a value of type t can carry state shared between its users ("" if it cannot).
+func sharedKind(t types.Type, depth int) string {
+	if depth > 8 {
+		return ""
+	}
+	switch x := types.Unalias(t).Underlying().(type) {
+	case *types.Chan:
+		return "channel"
+	case *types.Map:
+		return "map"
+	case *types.Slice:
+		return "slice"
+	case *types.Pointer:
+		return "pointer"
+	case *types.Signature:
+		return "function value"
+	case *types.Interface:
+		return "interface value"
+	case *types.Array:
+		return sharedKind(x.Elem(), depth+1)
+	case *types.Struct:
+		for i := 0; i < x.NumFields(); i++ {
+			if why := sharedKind(x.Field(i).Type(), depth+1); why != "" {
+				return "field " + x.Field(i).Name() + ": " + why
+			}
+		}
+	}
+	return ""
+}
+
 func runC14(r *Run) error {
 	progs := []programSpec{{"carrier", filepath.Join(verifDir, "carriers", "carrier.peg")}, {"peg.peg", filepath.Join(repoDir, "peg.peg")}}
 	for _, p := range progs {
@@ -679,6 +709,23 @@ func runC14(r *Run) error {
 					continue // rule closures: covered in bulk below to keep the evidence readable
 				}
 				r.Obls = append(r.Obls, frameObligation(name, "confined."+key, key+" writes only instance state (receiver fields, variables of its Init activation, its own locals) and starts no goroutine", len(bad) == 0, strings.Join(bad, "; ")))
+			}
+			// no package-level variable of the generated file may be (or contain) a channel, map, slice, pointer, function or
+			// interface: such an object is shared by all parser instances of the process even if the variable itself is never
+			// assigned (a free list, a cache, a pool). Arrays and scalars that are never written are constants in effect.
+			{
+				var sharedVars []string
+				sc := u.Pkg.Types.Scope()
+				for _, nm := range sc.Names() {
+					v, ok := sc.Lookup(nm).(*types.Var)
+					if !ok {
+						continue
+					}
+					if why := sharedKind(v.Type(), 0); why != "" {
+						sharedVars = append(sharedVars, fmt.Sprintf("var %s %s (%s) at %s", nm, v.Type(), why, posString(u, v.Pos())))
+					}
+				}
+				r.Obls = append(r.Obls, frameObligation(name, "nopkgstate", "the generated file declares no package-level variable that is or contains a channel, map, slice, pointer, function or interface (state shared by all instances)", len(sharedVars) == 0, strings.Join(sharedVars, "; ")))
 			}
 			// closures created outside Init (option constructors such as Size/Pretty) must not capture a mutable
 			// object of their constructor: it would be shared by every instance configured with that option value
